@@ -73,6 +73,9 @@ def build(repo=None):
             eng.globals["re"] = Opaque("module:re", attrs={"Pattern": Cls("Pattern")})
             eng.globals["np"] = Opaque("global:np", z3.Const("global_np", U))
             eng.globals["np.dtype"] = Fn("np.dtype", model=lambda e, s, a, kw, n: [(s, Opaque("np.dtype(...)", z3.Function("np_dtype", U, U)(e.as_u(s, a[0]))))])
+            # np.void gets its term up front, so that the specification can say "structured dtype" on every path (whether or not the code asks)
+            np_void = Opaque("global:np.void")
+            eng._memo_attr[(eng.globals["np"].t.get_id(), "void")] = np_void
             try:
                 eng.globals["_dtype_is_numpy_struct_array"] = Fn("_dtype_is_numpy_struct_array", node=mod.func("_dtype_is_numpy_struct_array"), closure={})
             except Exception:
@@ -336,7 +339,9 @@ def build(repo=None):
                         as_str = Ufn("py_as_str", U, STR)
                         nm_t = name_v.t if isinstance(name_v, Z) else as_str(name_v.t)
                         A = z3.And(has_type, has_nm)
-                        specn = z3.If(A, z3.Or(nm_t == NameOf(ty_o.t), nm_t == Ufn("py_str", U, STR)(dt_o.t)),
+                        # structured NumPy dtype (statement of the private predicate): the type is np.void's subclass named "void" but the dtype is not the plain void dtype
+                        structured = z3.And(NameOf(ty_o.t) == z3.StringVal("void"), dt_o.t != z3.Function("np_dtype", U, U)(np_void.t))
+                        specn = z3.If(A, nm_t == z3.If(structured, Ufn("py_str", U, STR)(dt_o.t), NameOf(ty_o.t)),
                                       z3.If(has_anp, nm_t == NameOf(anp_o.t),
                                             z3.If(is_str, nm_t == as_str(dt_o.t), nm_t == RTail(Ufn("py_repr", U, STR)(dt_o.t)))))
                         eng.oblige(s1, "C03:name-extraction:numpy/jax-type-name(or-str-for-structured),TF-as_numpy_dtype-name,else-the-string-or-the-repr-tail-after-the-LAST-dot", specn)
